@@ -160,6 +160,13 @@ def fixed_scenarios():
                 {"op": "sts_set", "ns": "ns1", "name": "web", "replicas": 3}, put(T), inf(T), flt(T, ["node2"]), bnd(T, "node2"), inf(T), phase(T, 1),
                 inf(T), again, {"op": "resync", "ip": "@a0"}, put(U), inf(U), flt(U, ["node2"]), bnd(U, "node2"), inf(U), put(V), inf(V),
                 flt(V, ["node2"]), bnd(V, "node2"), inf(V), {"op": "resync", "ip": "@a0"}, {"op": "resync", "ip": "@a1"}]}))
+            # ... and a RESERVED address of the second pool (its pod is gone, policy never) across the same restart / reload: the
+            # identity's next incarnation is bound with it
+            T1, T2 = mkpod("web-0", "uT1", policy=2, ranges=ranges), mkpod("web-0", "uT2", policy=2, ranges=ranges)
+            hs.append(("two-pools-one-subnet-reserved-%s-%d" % (how, len(ranges)), {"provider": False, "nodes": NODES, "conf": conf_text([PA1, PA2]), "ops": [
+                {"op": "sts_set", "ns": "ns1", "name": "web", "replicas": 3}, put(T1), inf(T1), flt(T1, ["node2"]), bnd(T1, "node2"), inf(T1), phase(T1, 1),
+                inf(T1), dele(T1), inf(T1), {"op": "event", "n": 0}, again, {"op": "resync", "ip": "@a0"}, put(T2), inf(T2), flt(T2, ["node2"]),
+                bnd(T2, "@approved:0"), inf(T2)]}))
     # a pool annotation that contains '_' (K4: such a key does not parse back to its pod - resync passes it by): the pod keeps
     # its IP through resync passes for as long as it lives, and the next pods are given other IPs
     for pol in (0, 2):
@@ -763,6 +770,20 @@ def mon_c02(h, o, nwf, keys):
     # immutable statefulset pod whose index is below the replicas (the monitor of C03's never_kept / immutable_kept_sts)
     kept = [(e, si, "sticky_reservation_kept" + kind[len("release_only_when_licensed"):], tags) for e, si, kind, tags in mon_c03(h, o, nwf, keys)
             if kind.startswith("release_only_when_licensed(") and "pod_alive" not in kind]
+    # ... nor does a restart, or a reload of a configuration that still contains the address, drop or re-key a stored IP
+    cpools, prev = conf_pools(h["conf"]), None
+    for si, (op, st) in enumerate(zip(h["ops"], steps)):
+        d = st.get("dump")
+        if d is None:
+            break
+        if op["op"] == "reload" and st.get("res") == "ok" and not any(c[2] for c in st.get("calls") or []):
+            cpools = conf_pools(op["conf"])
+        if op["op"] in ("restart", "reload") and st.get("res") == "ok" and prev is not None and cpools is not None and \
+                not any(c[2] for c in st.get("calls") or []):
+            now = {e[0]: e[1] for e in d["alloc"]}
+            ok = all(now.get(e[0]) == e[1] for e in prev["alloc"] if conf_pool_of(cpools, e[0]) is not None)
+            kept.append((lit(ok), si, "sticky_reservation_survives_reload", []))
+        prev = d
     return out + kept + live_kept(h, o, nwf, "sticky_across_resync")
 
 
@@ -1311,6 +1332,28 @@ def rejected_reload_scenarios(rng, ctx):
         ops += [put(p), inf(p), flt(p, ["node1", "node2", "node3"]), bnd(p, "@approved:0"), {"op": "restart"}]
         hs.append(("rejected-reload-%d" % bi, {"provider": False, "nodes": NODES, "conf": good, "ops": ops}))
         ctx.dist("scenario:rejected-reload")
+    return hs
+
+
+def attr_reload_scenarios(rng, ctx):
+    """an ACCEPTED reload changes what a pool says about its addresses (prefix length and gateway, vlan) while IPs of the pool
+    have been handed out before: whatever Bind writes afterwards - for an IP that was handed out before (a sticky pod bound
+    again, an address asked for again) or for a fresh one - carries the attributes of the configuration in force"""
+    hs = []
+    PA = {"nodeSubnets": ["10.1.0.0/24", "10.2.0.0/24"], "subnet": "10.100.0.0/24", "gateway": "10.100.0.1", "vlan": 2,
+          "ranges": [[S("10.100.0.2"), S("10.100.0.5")]]}
+    variants = [dict(PA, vlan=7), dict(PA, gateway="10.100.0.254"), dict(PA, subnet="10.100.0.0/23", gateway="10.100.1.254", vlan=9)]
+    for vi, PV in enumerate(variants):
+        for policy in (0, 2):
+            K1 = mkpod("web-0", "uK1", policy=policy, ranges=[["10.100.0.3"]])
+            K2 = mkpod("web-0", "uK2", policy=policy, ranges=[["10.100.0.3"]])
+            L = mkpod("web-1", "uL1")
+            ops = [{"op": "sts_set", "ns": "ns1", "name": "web", "replicas": 3}, put(K1), inf(K1), flt(K1, ["node1"]), bnd(K1, "node1"), inf(K1),
+                   phase(K1, 1), inf(K1), dele(K1), inf(K1), {"op": "event", "n": 0}, {"op": "reload", "conf": conf_text([PV])},
+                   put(K2), inf(K2), flt(K2, ["node1"]), bnd(K2, "node1"), inf(K2), put(L), inf(L), flt(L, ["node1", "node2"]), bnd(L, "@approved:0"),
+                   {"op": "reload", "conf": conf_text([PA])}, bnd(K2, "node1")]
+            hs.append(("pool-attributes-change-by-reload:%d:p%d" % (vi, policy), {"provider": False, "nodes": NODES, "conf": conf_text([PA]), "ops": ops}))
+            ctx.dist("scenario:attr-reload")
     return hs
 
 
